@@ -115,6 +115,11 @@ func c01GoValue(n *c01N) interface{} {
 }
 
 func c01Exec(in *interpreter.Interpreter, r *gast.Route, idx int, c c01Case) (o c01Obs) {
+	return c01ExecP(in, r, idx, c.P, c)
+}
+
+// c01ExecP: the request of case c with path parameter pv.
+func c01ExecP(in *interpreter.Interpreter, r *gast.Route, idx int, pv string, c c01Case) (o c01Obs) {
 	defer func() {
 		if rec := recover(); rec != nil {
 			o = c01Obs{Kind: "panic", Msg: c01Short(fmt.Sprint(rec))}
@@ -125,7 +130,7 @@ func c01Exec(in *interpreter.Interpreter, r *gast.Route, idx int, c c01Case) (o 
 		body = map[string]interface{}{"b": c01GoValue(c.Body)}
 	}
 	req := &interpreter.Request{
-		Path:    fmt.Sprintf("/r%d/%s", idx, c.P),
+		Path:    fmt.Sprintf("/r%d/%s", idx, pv),
 		Method:  "POST",
 		Params:  map[string]string{},
 		Body:    body,
@@ -152,8 +157,10 @@ func c01Short(s string) string {
 // c01RunReal executes the case: o1 = the judged route as the first request of
 // a fresh interpreter; o2 = the judged route after the earlier routes (if any)
 // and, for a single-route program, after itself, on a second / reused
-// interpreter.
-func c01RunReal(c c01Case, extraFresh int, stopOnDiff bool) (o1, o2 c01Obs, fresh []c01Obs) {
+// interpreter.  A case with an explicit history (c.Hist): o2 = the judged
+// request after exactly the requests of the history, in order, on one
+// interpreter; hist = what each of them gave.
+func c01RunReal(c c01Case, extraFresh int, stopOnDiff bool) (o1, o2 c01Obs, fresh []c01Obs, hist []c01Obs) {
 	src := c01Source(c.Prog)
 	done, pan := vk.WithWatchdog(20*time.Second, func() {
 		mod, err := parseSource(src)
@@ -196,7 +203,21 @@ func c01RunReal(c c01Case, extraFresh int, stopOnDiff bool) (o1, o2 c01Obs, fres
 			return
 		}
 		o1 = c01Exec(in1, routes[last], last, c)
-		if last == 0 {
+		if len(c.Hist) > 0 {
+			in2, bad := mk()
+			if bad != nil {
+				o2 = *bad
+				return
+			}
+			for _, h := range c.Hist {
+				if h.Route < 0 || h.Route > last {
+					o2 = c01Obs{Kind: "parse-reject", Msg: fmt.Sprintf("history names route %d of %d", h.Route, last+1)}
+					return
+				}
+				hist = append(hist, c01ExecP(in2, routes[h.Route], h.Route, h.P, c))
+			}
+			o2 = c01Exec(in2, routes[last], last, c)
+		} else if last == 0 {
 			o2 = c01Exec(in1, routes[0], 0, c)
 		} else {
 			in2, bad := mk()
@@ -238,8 +259,9 @@ func c01RunReal(c c01Case, extraFresh int, stopOnDiff bool) (o1, o2 c01Obs, fres
 type c01Verdict struct {
 	Kind   string
 	Desc   string
-	Judged bool   // the reference assigned an outcome (set)
-	Unspec string // reason when not judged
+	Judged bool     // the reference assigned an outcome (set)
+	Unspec string   // reason when not judged
+	Hist   []string // value / error: what each request of an explicit history gave
 }
 
 func c01Member(o c01Obs, allowed []c01Outcome) bool {
@@ -328,10 +350,13 @@ func c01Judge(c c01Case, reps int) (v c01Verdict, o1 c01Obs) {
 	if orderLayer {
 		extra = c01OrderRuns
 	}
-	o1, o2, fresh := c01RunReal(c, extra, orderLayer)
+	o1, o2, fresh, hist := c01RunReal(c, extra, orderLayer)
 	v.Judged, v.Unspec = judged, ref.Unspecified
+	for _, h := range hist {
+		v.Hist = append(v.Hist, h.Kind)
+	}
 	src := func() string { return "\n" + c01Source(c.Prog) + c01Inputs(c) }
-	for _, o := range append([]c01Obs{o1, o2}, fresh...) {
+	for _, o := range append(append([]c01Obs{o1, o2}, fresh...), hist...) {
 		switch o.Kind {
 		case "parse-reject", "load-error":
 			v.Kind = "harness-" + o.Kind
@@ -376,6 +401,13 @@ func c01Judge(c c01Case, reps int) (v c01Verdict, o1 c01Obs) {
 				if len(c.Prog.Routes) > 1 {
 					how = "the request evaluated after a request to another route of the module"
 				}
+				if len(c.Hist) > 0 {
+					var hs []string
+					for i, h := range c.Hist {
+						hs = append(hs, fmt.Sprintf("/r%d/%s -> %s", h.Route, h.P, c01Short(hist[i].show())))
+					}
+					how = "the same request evaluated on an interpreter that answered these requests before (" + strings.Join(hs, "; ") + ")"
+				}
 				v.Desc = fmt.Sprintf("outcome is not a function of program text and inputs: first request on a fresh interpreter gives %s; %s gives %s%s", o1.show(), how, o2.show(), src())
 				return
 			}
@@ -406,6 +438,12 @@ func c01Inputs(c c01Case) string {
 		s += " body={\"b\": " + c01R{}.expr(c.Body) + "}"
 	} else {
 		s += " (no body)"
+	}
+	if len(c.Hist) > 0 {
+		s += " after"
+		for _, h := range c.Hist {
+			s += fmt.Sprintf(" /r%d/%s", h.Route, h.P)
+		}
 	}
 	return s
 }
@@ -452,6 +490,8 @@ func c01Shrink(c c01Case, kind string, reps int) (c01Case, c01Verdict) {
 
 var c01ShrinkMemo = map[string]c01Verdict{}
 
+var c01Timing map[string]time.Duration
+
 // set by the entry point to the shard's budget clock (nil in replay mode)
 var c01ShrinkExpired func() bool
 
@@ -472,6 +512,7 @@ var c01KeepIdent = map[string]bool{
 	"if": true, "else": true, "while": true, "for": true, "in": true, "switch": true, "case": true, "default": true,
 	"match": true, "when": true, "break": true, "continue": true, "true": true, "false": true, "null": true,
 	"const": true, "input": true, "query": true, "headers": true, "p": true, "POST": true, "r0": true, "r1": true, "path": true, "body": true, "none": true,
+	"r2": true, "r3": true, "r4": true, "r5": true, "after": true, "gave_value": true, "gave_error": true,
 	"int": true, "str": true, "bool": true, "float": true, "any": true,
 	"INT": true, "FLOAT": true, "STR": true, "BOOL": true, "NULL": true,
 }
@@ -513,8 +554,8 @@ func c01Alpha(s string) string {
 	return b.String()
 }
 
-func c01Key(kind string, c c01Case) string {
-	k := kind + "/" + c01Alpha(c01Canon(c))
+func c01Key(kind string, c c01Case, hist []string) string {
+	k := kind + "/" + c01Alpha(c01Canon(c)+c01HistCanon(c, hist))
 	k = strings.ReplaceAll(k, " :: ", " ::")
 	k = strings.ReplaceAll(k, "\n", " ")
 	return k
@@ -600,7 +641,7 @@ func TestVerif_C01(t *testing.T) {
 		fmt.Printf("replay %s\n%s%s\nobserved: %s\nverdict: %q %s\n", rp.Kind, c01Source(rp.Case.Prog), c01Inputs(rp.Case), o1.show(), v.Kind, v.Desc)
 		ok := v.Kind == rp.Kind
 		if ok {
-			res.Violate(c01Key(v.Kind, rp.Case), v.Desc, rp)
+			res.Violate(c01Key(v.Kind, rp.Case, v.Hist), v.Desc, rp)
 		}
 		res.Replayed = &ok
 		res.Write(p)
@@ -622,7 +663,11 @@ func TestVerif_C01(t *testing.T) {
 			return false
 		}
 		c := build()
+		t0 := time.Now()
 		v, o1 := c01Judge(c, reps)
+		if c01Timing != nil {
+			c01Timing[c.Layer] += time.Since(t0)
+		}
 		res.Evaluations++
 		res.Count("cases_"+c.Layer, 1)
 		if v.Judged {
@@ -648,11 +693,17 @@ func TestVerif_C01(t *testing.T) {
 			if p.Expired() {
 				res.Exhaustive = false // the reduction above may have been cut short
 			}
-			res.Violate(c01Key(mv.Kind, m), mv.Desc, c01Replay{Kind: mv.Kind, Case: m, Source: c01Source(m.Prog), Orig: c01Source(c.Prog) + c01Inputs(c)})
+			res.Violate(c01Key(mv.Kind, m, mv.Hist), mv.Desc, c01Replay{Kind: mv.Kind, Case: m, Source: c01Source(m.Prog), Orig: c01Source(c.Prog) + c01Inputs(c)})
 		}
 		return true
 	}
+	if os.Getenv("C01_TIMING") != "" {
+		c01Timing = map[string]time.Duration{} // development aid: time per layer on stderr, not in the evidence
+	}
 	bounds := c01Layers(p.Thorough, names, emit)
+	if c01Timing != nil {
+		fmt.Fprintf(os.Stderr, "C01 shard %d/%d time per layer: %v\n", p.Shard, p.NShard, c01Timing)
+	}
 	for k, v := range bounds {
 		res.Bounds[k] = v
 	}
@@ -723,4 +774,42 @@ func c01Probe(path string) {
 			}
 		}()
 	}
+}
+
+// c01L8Fit: the deepest recursion of form kind (route of c01L8Module) that is
+// answered with a value on a fresh interpreter of the tree under test: depths
+// 0, 1, 2, … are evaluated, each on its own fresh interpreter, up to the first
+// one that is not answered (≤ max).  -1: depth 0 is not answered; max: none is
+// refused up to max.
+func c01L8Fit(kind, max int) int {
+	c := l8Case(nil, l8Req{kind, "0"})
+	mod, err := parseSource(c01Source(c.Prog))
+	if err != nil {
+		return -1
+	}
+	var route *gast.Route
+	for _, it := range mod.Items {
+		if r, ok := it.(*gast.Route); ok {
+			route = r
+		}
+	}
+	if route == nil {
+		return -1
+	}
+	for d := 0; d <= max; d++ {
+		answered := false
+		func() {
+			defer func() { recover() }()
+			in := newConfiguredInterpreter()
+			if in.LoadModule(*mod) != nil {
+				return
+			}
+			o := c01ExecP(in, route, 0, strconv.Itoa(d), c)
+			answered = o.Kind == "value"
+		}()
+		if !answered {
+			return d - 1
+		}
+	}
+	return max
 }
